@@ -164,6 +164,7 @@ def check_config(ctx, F, tag):
            "%d validation failure blocks; aggregate reachable from one: %s" % (len(errk), leak))
 
     check_validation_formulas(ctx, F, tag)
+    check_partial_unit_counts(ctx, F, tag)
 
     # ---------------- R3 composite loaders
     check_composite_loaders(ctx, F, tag, "C19.R3")
@@ -291,6 +292,33 @@ def abstract_quantity(F, t, env, depth=0):
 def abstract_is_parent(t, env):
     t = core(t)
     return any(core(k) == t and v == "PARENT" for k, v in env)
+
+
+def check_partial_unit_counts(ctx, F, tag, prefix="C19.R2"):
+    """SelectSupport::load accepts a structure only if superblocks() == long_superblocks() + short_superblocks().  A long superblock
+    holds one entry per set bit and the last one may hold fewer than SUPERBLOCK_SIZE entries (the builder pushes `limit.0 - start.0`
+    of them), so the number of long superblocks is the entry count divided by SUPERBLOCK_SIZE *rounded up*; a short superblock always
+    holds exactly BLOCKS_IN_SUPERBLOCK entries.  Reported only when the count is positively a truncating division of the entry count
+    (any rounding-up form is accepted)."""
+    name = "bit_vector::select_support::SelectSupport::<T>::long_superblocks"
+    b = F.body(name)
+    t = core(b.term_of_local(0))
+    trunc = t[0] == "bin" and t[1] == "Div" and core(t[2])[0] == "call" and core(t[2])[1].endswith("::len") and self_path(core(t[2])[2][0]) == ["long"] and \
+        core(t[3])[0] == "const"
+    sb = F.body("bit_vector::select_support::SelectSupport::<T>::new")
+    def borrows_field(body, o, field):
+        q = operand_place(o)
+        if q is None or q["p"]:
+            return False
+        for (bi, si, kind, rv) in body.defs().get(q["l"], []):
+            if kind == "assign" and rv["r"] == "ref" and any(isinstance(e, dict) and e.get("name") == field for e in rv["p"]["p"]):
+                return True
+        return False
+    pushes = [bi for bi, tt in sb.calls() if callee_name(tt).endswith("Push>::push") and borrows_field(sb, tt["args"][0], "long")]
+    data_dependent = any(bi in sb.loop_blocks() for bi in pushes)
+    ctx.ob(prefix + ".partial-unit-count-rounds-up", name + tag, loc(b.raw["span"]), not (trunc and data_dependent), "formula+builder-shape",
+           "long_superblocks() = %s; the builder pushes a data-dependent number of `long` entries per superblock (loop): %s; truncating division: %s" % (
+               tstr(t)[:80], data_dependent, trunc))
 
 
 def check_validation_formulas(ctx, F, tag):
